@@ -43,7 +43,15 @@ impl Clone for World {
 }
 
 fn pool(n: usize) -> Vec<Point> {
-  (0..n).map(|i| Client::blind(format!("pool point {}", i).as_bytes()).0).collect()
+  let mut v: Vec<Point> = (0..n).map(|i| Client::blind(format!("pool point {}", i).as_bytes()).0).collect();
+  // structured points a client may send: the identity and the base point
+  if n >= 2 {
+    v[n - 1] = Point::from(&[0u8; 32][..]);
+  }
+  if n >= 3 {
+    v[n - 2] = Point::from(&curve25519_dalek::constants::RISTRETTO_BASEPOINT_COMPRESSED.to_bytes()[..]);
+  }
+  v
 }
 
 impl World {
